@@ -1,18 +1,893 @@
 /-
-  C10 — volume() is the true measure of the domain (theorems; see design_notes/C10.md).
+  C10 — volume() is the true measure of the domain.
+
+  Model: TPV/Model/GeomVol.lean (`volume`, closed forms, `densityCount`, grids).  This file proves
+    1. the closed forms are the Lebesgue measure (Mathlib) of the sets the primitives DENOTE (`mem` of
+       Proofs/GeomSpec.lean, which Props/C05.lean proves to be what `_contains` decides): interval, disc,
+       ball, parallelogram, triangle; positivity for both vertex orientations; the formulas of the pinned
+       snapshot (3/4·π·r³, signed determinants) are refuted;
+    2. the composition rules: the model's equations for union / cut / product / translation / rotation
+       and the corresponding facts about arbitrary measurable sets (additivity for disjoint sets,
+       subtractivity for contained ones, product measure, invariance under translations and under linear
+       maps of determinant ±1); a value without warning only comes from fully declared expressions;
+    3. user override; partial evaluation keeps the volume (and the pinned snapshot did not);
+    4. counting: `densityCount = ⌈d·v⌉`, grid sizes.
 -/
 import TPV.Model.GeomVol
-import Mathlib.Algebra.Order.Field.Basic
-import Mathlib.Tactic.Ring
-import Mathlib.Tactic.Linarith
+import TPV.Proofs.GeomSpec
+import TPV.Props.C05
+import Mathlib.MeasureTheory.Measure.Lebesgue.VolumeOfBalls
+import Mathlib.MeasureTheory.Measure.Lebesgue.EqHaar
+import Mathlib.MeasureTheory.Measure.Prod
+import Mathlib.MeasureTheory.Constructions.Pi
+import Mathlib.MeasureTheory.Integral.IntervalIntegral.FundThmCalculus
+import Mathlib.Analysis.SpecialFunctions.Integrals.Basic
+import Mathlib.Analysis.SpecialFunctions.Sqrt
+import Mathlib.Analysis.SpecialFunctions.Trigonometric.Basic
+import Mathlib.Analysis.InnerProductSpace.PiL2
+import Mathlib.LinearAlgebra.Matrix.Determinant.Basic
+import Mathlib.Algebra.Order.Floor.Ring
+import Mathlib.Data.Rat.Floor
 
 namespace TPV.Geom
+open MeasureTheory Set Metric
 
-/-- a user-set volume overrides whatever is below it -/
+/-- Lebesgue measure (`TPV.Geom.volume` is the model function) -/
+local notation "μL" => MeasureTheory.MeasureSpace.volume
+
+/-- the real instance of the transcendental operations the model is generic in -/
+noncomputable instance : Transc ℝ := ⟨Real.sqrt, Real.pi⟩
+
+/-! ## 1. closed forms = Lebesgue measure -/
+
+theorem interval_volume (l u : ℝ) : μL (Icc l u) = ENNReal.ofReal (intervalVol l u) := by
+  simp [intervalVol, Real.volume_Icc]
+
+/-- Lebesgue measure of the closed disc of radius `r` is the model's `π r²` -/
+theorem disc_volume (c : EuclideanSpace ℝ (Fin 2)) (r : ℝ) (hr : 0 ≤ r) :
+    μL (closedBall c r) = ENNReal.ofReal (circleVol r) := by
+  rw [EuclideanSpace.volume_closedBall_fin_two]
+  simp only [circleVol, Transc.pi]
+  rw [← ENNReal.ofReal_pow hr, ← ENNReal.ofReal_mul (by positivity)]
+  congr 1; ring
+
+/-- Lebesgue measure of the closed ball of radius `r` in ℝ³ is the model's `4/3 π r³` -/
+theorem ball_volume (c : EuclideanSpace ℝ (Fin 3)) (r : ℝ) (hr : 0 ≤ r) :
+    μL (closedBall c r) = ENNReal.ofReal (sphereVol r) := by
+  rw [EuclideanSpace.volume_closedBall_fin_three]
+  simp only [sphereVol, Transc.pi]
+  rw [← ENNReal.ofReal_pow hr, ← ENNReal.ofReal_mul (by positivity)]
+  congr 1; ring
+
+/-- the constant of the pinned snapshot (3/4) is NOT the volume of the unit ball -/
+theorem ball_volume_old_wrong :
+    μL (closedBall (0 : EuclideanSpace ℝ (Fin 3)) 1) ≠ ENNReal.ofReal (sphereVolOld 1) := by
+  rw [ball_volume _ _ zero_le_one]
+  intro h
+  have hpos : (0:ℝ) < sphereVol 1 := by simp only [sphereVol, Transc.pi]; positivity
+  have := (ENNReal.ofReal_eq_ofReal_iff hpos.le (by simp only [sphereVolOld, Transc.pi]; positivity)).1 h
+  simp only [sphereVol, sphereVolOld, Transc.pi] at this
+  nlinarith [Real.pi_pos]
+
+/-- the linear map with columns `d1`, `d2` -/
+noncomputable def colMap (d1 d2 : Fin 2 → ℝ) : (Fin 2 → ℝ) →ₗ[ℝ] (Fin 2 → ℝ) :=
+  Matrix.toLin' (Matrix.of ![![d1 0, d2 0], ![d1 1, d2 1]])
+
+/-- aux: the map is `q ↦ q₀ d₁ + q₁ d₂` -/
+theorem colMap_apply (d1 d2 q : Fin 2 → ℝ) : colMap d1 d2 q = q 0 • d1 + q 1 • d2 := by
+  ext i; fin_cases i <;> simp [colMap, Matrix.toLin'_apply, Matrix.mulVec, dotProduct, Fin.sum_univ_two] <;> ring
+
+/-- aux: its determinant -/
+theorem colMap_det (d1 d2 : Fin 2 → ℝ) : LinearMap.det (colMap d1 d2) = d1 0 * d2 1 - d1 1 * d2 0 := by
+  simp [colMap, LinearMap.det_toLin', Matrix.det_fin_two]; ring
+
+/-- the parallelogram with corner `o` spanned by `d1`, `d2`: `{o + s•d1 + t•d2 | s, t ∈ [0,1]}` -/
+def parSet (o d1 d2 : Fin 2 → ℝ) : Set (Fin 2 → ℝ) :=
+  {p | ∃ s t : ℝ, 0 ≤ s ∧ s ≤ 1 ∧ 0 ≤ t ∧ t ≤ 1 ∧ p = o + s • d1 + t • d2}
+
+/-- the triangle with corners `o`, `o + d1`, `o + d2` -/
+def triSet (o d1 d2 : Fin 2 → ℝ) : Set (Fin 2 → ℝ) :=
+  {p | ∃ s t : ℝ, 0 ≤ s ∧ 0 ≤ t ∧ s + t ≤ 1 ∧ p = o + s • d1 + t • d2}
+
+/-- the standard triangle -/
+def stdTri : Set (Fin 2 → ℝ) := {q | 0 ≤ q 0 ∧ 0 ≤ q 1 ∧ q 0 + q 1 ≤ 1}
+
+/-- aux: the parallelogram is the translated linear image of the unit square -/
+theorem parSet_eq (o d1 d2 : Fin 2 → ℝ) : parSet o d1 d2 = (fun p => o + p) '' (colMap d1 d2 '' Icc 0 1) := by
+  ext p
+  simp only [parSet, mem_ofPred_eq, mem_image, mem_Icc, exists_exists_and_eq_and, colMap_apply]
+  constructor
+  · rintro ⟨s, t, hs0, hs1, ht0, ht1, rfl⟩
+    refine ⟨![s, t], ⟨?_, ?_⟩, ?_⟩
+    · intro i; fin_cases i <;> simp [hs0, ht0]
+    · intro i; fin_cases i <;> simp [hs1, ht1]
+    · simp [add_assoc]
+  · rintro ⟨q, ⟨h0, h1⟩, rfl⟩
+    exact ⟨q 0, q 1, h0 0, h1 0, h0 1, h1 1, by simp [add_assoc]⟩
+
+/-- aux: the triangle is the translated linear image of the standard triangle -/
+theorem triSet_eq (o d1 d2 : Fin 2 → ℝ) : triSet o d1 d2 = (fun p => o + p) '' (colMap d1 d2 '' stdTri) := by
+  ext p
+  simp only [triSet, stdTri, mem_ofPred_eq, mem_image, exists_exists_and_eq_and, colMap_apply]
+  constructor
+  · rintro ⟨s, t, hs0, ht0, hst, rfl⟩
+    exact ⟨![s, t], by simpa using ⟨hs0, ht0, hst⟩, by simp [add_assoc]⟩
+  · rintro ⟨q, ⟨h0, h1, h2⟩, rfl⟩
+    exact ⟨q 0, q 1, h0, h1, h2, by simp [add_assoc]⟩
+
+/-- aux: Lebesgue measure is translation invariant -/
+theorem volume_image_add_left (o : Fin 2 → ℝ) (s : Set (Fin 2 → ℝ)) : μL ((fun p => o + p) '' s) = μL s := by
+  rw [image_add_left, measure_preimage_add]
+
+/-- area of the parallelogram `{o + s d₁ + t d₂ | s,t ∈ [0,1]}` is `|det(d₁,d₂)|` — for either orientation -/
+theorem par_volume (o d1 d2 : Fin 2 → ℝ) :
+    μL (parSet o d1 d2) = ENNReal.ofReal |d1 0 * d2 1 - d1 1 * d2 0| := by
+  rw [parSet_eq, volume_image_add_left, Measure.addHaar_image_linearMap, colMap_det, Real.volume_Icc_pi]
+  simp
+
+/-- area of the standard triangle, by slicing -/
+theorem stdTri_volume : μL stdTri = ENNReal.ofReal (1 / 2) := by
+  have hmp := (volume_preserving_finTwoArrow ℝ)
+  have hpre : stdTri = (MeasurableEquiv.finTwoArrow (α := ℝ)) ⁻¹' {p : ℝ × ℝ | 0 ≤ p.1 ∧ 0 ≤ p.2 ∧ p.1 + p.2 ≤ 1} := by
+    ext q; simp [stdTri, MeasurableEquiv.finTwoArrow]
+  have hmeas : MeasurableSet {p : ℝ × ℝ | 0 ≤ p.1 ∧ 0 ≤ p.2 ∧ p.1 + p.2 ≤ 1} := by
+    apply IsClosed.measurableSet
+    have h1 : IsClosed {p : ℝ × ℝ | 0 ≤ p.1} := isClosed_le continuous_const continuous_fst
+    have h2 : IsClosed {p : ℝ × ℝ | 0 ≤ p.2} := isClosed_le continuous_const continuous_snd
+    have h3 : IsClosed {p : ℝ × ℝ | p.1 + p.2 ≤ 1} := isClosed_le (continuous_fst.add continuous_snd) continuous_const
+    exact h1.inter (h2.inter h3)
+  rw [hpre, hmp.measure_preimage hmeas.nullMeasurableSet, Measure.volume_eq_prod, Measure.prod_apply hmeas]
+  have hslice : ∀ x : ℝ, μL (Prod.mk x ⁻¹' {p : ℝ × ℝ | 0 ≤ p.1 ∧ 0 ≤ p.2 ∧ p.1 + p.2 ≤ 1})
+      = (Icc (0:ℝ) 1).indicator (fun x => ENNReal.ofReal (1 - x)) x := by
+    intro x
+    by_cases hx : x ∈ Icc (0:ℝ) 1
+    · have : Prod.mk x ⁻¹' {p : ℝ × ℝ | 0 ≤ p.1 ∧ 0 ≤ p.2 ∧ p.1 + p.2 ≤ 1} = Icc 0 (1 - x) := by
+        ext y; simp only [mem_preimage, mem_ofPred_eq, mem_Icc]
+        constructor
+        · rintro ⟨_, h2, h3⟩; exact ⟨h2, by linarith⟩
+        · rintro ⟨h2, h3⟩; exact ⟨hx.1, h2, by linarith⟩
+      rw [this, indicator_of_mem hx, Real.volume_Icc]; simp
+    · have : Prod.mk x ⁻¹' {p : ℝ × ℝ | 0 ≤ p.1 ∧ 0 ≤ p.2 ∧ p.1 + p.2 ≤ 1} = ∅ := by
+        ext y; simp only [mem_preimage, mem_ofPred_eq, mem_empty_iff_false, iff_false]
+        rintro ⟨h1, h2, h3⟩; exact hx ⟨h1, by linarith⟩
+      rw [this, indicator_of_notMem hx]; simp
+  simp_rw [hslice]
+  rw [lintegral_indicator measurableSet_Icc]
+  rw [← ofReal_integral_eq_lintegral_ofReal]
+  · congr 1
+    rw [integral_Icc_eq_integral_Ioc, ← intervalIntegral.integral_of_le zero_le_one]
+    rw [intervalIntegral.integral_sub (by simp) (by simp)]
+    simp [integral_id]
+    norm_num
+  · exact (continuous_const.sub continuous_id).integrableOn_Icc
+  · exact (ae_restrict_iff' measurableSet_Icc).2 (Filter.Eventually.of_forall fun x hx => by simp only [Pi.zero_apply]; linarith [hx.2])
+
+/-- area of the triangle `{o + s d₁ + t d₂ | s,t ≥ 0, s+t ≤ 1}` is `|det(d₁,d₂)|/2` — for either orientation -/
+theorem tri_volume (o d1 d2 : Fin 2 → ℝ) :
+    μL (triSet o d1 d2) = ENNReal.ofReal (|d1 0 * d2 1 - d1 1 * d2 0| / 2) := by
+  rw [triSet_eq, volume_image_add_left, Measure.addHaar_image_linearMap, colMap_det, stdTri_volume,
+    ← ENNReal.ofReal_mul (abs_nonneg _)]
+  congr 1; ring
+
+/-! ### the sets the primitives denote (`mem`) -/
+
+theorem get_single (v : String) (l : List ℝ) : Env.get [(v, l)] v = some l := by
+  simp [Env.get, List.lookup]
+
+/-- the set `mem` assigns to a `Circle` (parameters independent of the point) is the closed Euclidean disc -/
+theorem circle_denotation (v : String) (c r : PFun ℝ) (ρ : Env ℝ) (cx cy rr : ℝ)
+    (hc : ∀ q, c.f ([(v, q)] ++ ρ) = [cx, cy]) (hr : ∀ q, r.f ([(v, q)] ++ ρ) = [rr]) :
+    {p : EuclideanSpace ℝ (Fin 2) | mem (.circle v c r) [(v, [p 0, p 1])] ρ} = closedBall !₂[cx, cy] rr := by
+  ext p
+  simp only [mem, get_single, hc, hr, mem_ofPred_eq, mem_closedBall, EuclideanSpace.dist_eq, Fin.sum_univ_two,
+    Real.sqrt_le_iff]
+  constructor
+  · rintro ⟨x, y, cx', cy', rr', h1, h2, h3, h4, h5⟩
+    simp only [Option.some.injEq, List.cons.injEq, and_true] at h1 h2 h3
+    obtain ⟨rfl, rfl⟩ := h1; obtain ⟨rfl, rfl⟩ := h2; subst h3
+    refine ⟨h4, ?_⟩
+    simpa [Real.dist_eq, sq_abs] using h5
+  · rintro ⟨h4, h5⟩
+    refine ⟨p 0, p 1, cx, cy, rr, rfl, rfl, rfl, h4, ?_⟩
+    simpa [Real.dist_eq, sq_abs] using h5
+
+
+/-- the set `mem` assigns to an `Interval` is `[l,u]` -/
+theorem interval_denotation (v : String) (lb ub : PFun ℝ) (ρ : Env ℝ) (l u : ℝ)
+    (hl : ∀ q, lb.f ([(v, q)] ++ ρ) = [l]) (hu : ∀ q, ub.f ([(v, q)] ++ ρ) = [u]) :
+    {x : ℝ | mem (.interval v lb ub) [(v, [x])] ρ} = Icc l u := by
+  ext x
+  simp only [mem, get_single, hl, hu, mem_ofPred_eq, mem_Icc]
+  constructor
+  · rintro ⟨x', l', u', h1, h2, h3, h4, h5⟩
+    simp only [Option.some.injEq, List.cons.injEq, and_true] at h1 h2 h3
+    subst h1 h2 h3; exact ⟨h4, h5⟩
+  · rintro ⟨h4, h5⟩; exact ⟨x, l, u, rfl, rfl, rfl, h4, h5⟩
+
+/-- the set `mem` assigns to a `Parallelogram` is `parSet` -/
+theorem par_denotation (v : String) (o c1 c2 : PFun ℝ) (ρ : Env ℝ) (ox oy ax ay bx cy : ℝ)
+    (ho : ∀ q, o.f ([(v, q)] ++ ρ) = [ox, oy]) (h1 : ∀ q, c1.f ([(v, q)] ++ ρ) = [ax, ay])
+    (h2 : ∀ q, c2.f ([(v, q)] ++ ρ) = [bx, cy]) :
+    {p : Fin 2 → ℝ | mem (.par v o c1 c2) [(v, [p 0, p 1])] ρ}
+      = parSet ![ox, oy] ![ax - ox, ay - oy] ![bx - ox, cy - oy] := by
+  ext p
+  simp only [mem, get_single, ho, h1, h2, mem_ofPred_eq, parSet]
+  constructor
+  · rintro ⟨x, y, ox', oy', ax', ay', bx', cy', s, t, e1, e2, e3, e4, hs0, hs1, ht0, ht1, hx, hy⟩
+    simp only [Option.some.injEq, List.cons.injEq, and_true] at e1 e2 e3 e4
+    obtain ⟨rfl, rfl⟩ := e1; obtain ⟨rfl, rfl⟩ := e2; obtain ⟨rfl, rfl⟩ := e3; obtain ⟨rfl, rfl⟩ := e4
+    refine ⟨s, t, hs0, hs1, ht0, ht1, ?_⟩
+    ext i; fin_cases i <;> simp [hx, hy]
+  · rintro ⟨s, t, hs0, hs1, ht0, ht1, hp⟩
+    refine ⟨p 0, p 1, ox, oy, ax, ay, bx, cy, s, t, rfl, rfl, rfl, rfl, hs0, hs1, ht0, ht1, ?_, ?_⟩
+    · simpa using congrFun hp 0
+    · simpa using congrFun hp 1
+
+/-- the set `mem` assigns to a `Triangle` is `triSet` -/
+theorem tri_denotation (v : String) (o c1 c2 : PFun ℝ) (ρ : Env ℝ) (ox oy ax ay bx cy : ℝ)
+    (ho : ∀ q, o.f ([(v, q)] ++ ρ) = [ox, oy]) (h1 : ∀ q, c1.f ([(v, q)] ++ ρ) = [ax, ay])
+    (h2 : ∀ q, c2.f ([(v, q)] ++ ρ) = [bx, cy]) :
+    {p : Fin 2 → ℝ | mem (.tri v o c1 c2) [(v, [p 0, p 1])] ρ}
+      = triSet ![ox, oy] ![ax - ox, ay - oy] ![bx - ox, cy - oy] := by
+  ext p
+  simp only [mem, get_single, ho, h1, h2, mem_ofPred_eq, triSet]
+  constructor
+  · rintro ⟨x, y, ox', oy', ax', ay', bx', cy', s, t, e1, e2, e3, e4, hs0, ht0, hst, hx, hy⟩
+    simp only [Option.some.injEq, List.cons.injEq, and_true] at e1 e2 e3 e4
+    obtain ⟨rfl, rfl⟩ := e1; obtain ⟨rfl, rfl⟩ := e2; obtain ⟨rfl, rfl⟩ := e3; obtain ⟨rfl, rfl⟩ := e4
+    refine ⟨s, t, hs0, ht0, hst, ?_⟩
+    ext i; fin_cases i <;> simp [hx, hy]
+  · rintro ⟨s, t, hs0, ht0, hst, hp⟩
+    refine ⟨p 0, p 1, ox, oy, ax, ay, bx, cy, s, t, rfl, rfl, rfl, rfl, hs0, ht0, hst, ?_, ?_⟩
+    · simpa using congrFun hp 0
+    · simpa using congrFun hp 1
+
+/-- the set `mem` assigns to a `Sphere` is the closed Euclidean ball -/
+theorem sphere_denotation (v : String) (c r : PFun ℝ) (ρ : Env ℝ) (cx cy cz rr : ℝ)
+    (hc : ∀ q, c.f ([(v, q)] ++ ρ) = [cx, cy, cz]) (hr : ∀ q, r.f ([(v, q)] ++ ρ) = [rr]) :
+    {p : EuclideanSpace ℝ (Fin 3) | mem (.sphere v c r) [(v, [p 0, p 1, p 2])] ρ} = closedBall !₂[cx, cy, cz] rr := by
+  ext p
+  simp only [mem, get_single, hc, hr, mem_ofPred_eq, mem_closedBall, EuclideanSpace.dist_eq, Fin.sum_univ_three,
+    Real.sqrt_le_iff]
+  constructor
+  · rintro ⟨x, y, z, cx', cy', cz', rr', h1, h2, h3, h4, h5⟩
+    simp only [Option.some.injEq, List.cons.injEq, and_true] at h1 h2 h3
+    obtain ⟨rfl, rfl, rfl⟩ := h1; obtain ⟨rfl, rfl, rfl⟩ := h2; subst h3
+    refine ⟨h4, ?_⟩
+    simpa [Real.dist_eq, sq_abs] using h5
+  · rintro ⟨h4, h5⟩
+    refine ⟨p 0, p 1, p 2, cx, cy, cz, rr, rfl, rfl, rfl, h4, ?_⟩
+    simpa [Real.dist_eq, sq_abs] using h5
+
+/-- the model's parallelogram volume over ℝ is `|det|` -/
+theorem parVol_eq (ox oy ax ay bx cy : ℝ) :
+    parVol ox oy ax ay bx cy = |(ax - ox) * (cy - oy) - (ay - oy) * (bx - ox)| := by
+  simp [parVol, det2, absK_eq]
+
+/-- the model's triangle volume over ℝ is `|det|/2` -/
+theorem triVol_eq (ox oy ax ay bx cy : ℝ) :
+    triVol ox oy ax ay bx cy = |(ax - ox) * (cy - oy) - (ay - oy) * (bx - ox)| / 2 := by
+  simp [triVol, det2, absK_eq]
+
+
+/-! ### the model's `volume` of a primitive is the Lebesgue measure of the set it denotes -/
+
+section sound
+variable (v : String) (ρ : Env ℝ)
+
+/-- Interval: `volume()` = Lebesgue measure of `{x | lb ≤ x ≤ ub}` (parameters evaluated at the row `ρ`) -/
+theorem interval_volume_sound (lb ub : PFun ℝ) (l u : ℝ)
+    (hl0 : lb.f ρ = [l]) (hu0 : ub.f ρ = [u])
+    (hl : ∀ q, lb.f ([(v, q)] ++ ρ) = [l]) (hu : ∀ q, ub.f ([(v, q)] ++ ρ) = [u]) :
+    volume (.interval v lb ub) ρ = .ok (intervalVol l u, false) ∧
+    μL {x : ℝ | mem (.interval v lb ub) [(v, [x])] ρ} = ENNReal.ofReal (intervalVol l u) := by
+  refine ⟨?_, ?_⟩
+  · simp [volume, volAux, hl0, hu0]
+  · rw [interval_denotation v lb ub ρ l u hl hu, interval_volume]
+
+/-- Parallelogram: `volume()` = |det| = Lebesgue measure of the denoted set, for BOTH orientations -/
+theorem par_volume_sound (o c1 c2 : PFun ℝ) (ox oy ax ay bx cy : ℝ)
+    (e0 : o.f ρ = [ox, oy]) (e1 : c1.f ρ = [ax, ay]) (e2 : c2.f ρ = [bx, cy])
+    (ho : ∀ q, o.f ([(v, q)] ++ ρ) = [ox, oy]) (h1 : ∀ q, c1.f ([(v, q)] ++ ρ) = [ax, ay])
+    (h2 : ∀ q, c2.f ([(v, q)] ++ ρ) = [bx, cy]) :
+    volume (.par v o c1 c2) ρ = .ok (parVol ox oy ax ay bx cy, false) ∧
+    μL {p : Fin 2 → ℝ | mem (.par v o c1 c2) [(v, [p 0, p 1])] ρ} = ENNReal.ofReal (parVol ox oy ax ay bx cy) := by
+  refine ⟨?_, ?_⟩
+  · simp [volume, volAux, e0, e1, e2]
+  · rw [par_denotation v o c1 c2 ρ ox oy ax ay bx cy ho h1 h2, par_volume, parVol_eq]
+    simp
+
+/-- Triangle: `volume()` = |det|/2 = Lebesgue measure of the denoted set, for BOTH orientations -/
+theorem tri_volume_sound (o c1 c2 : PFun ℝ) (ox oy ax ay bx cy : ℝ)
+    (e0 : o.f ρ = [ox, oy]) (e1 : c1.f ρ = [ax, ay]) (e2 : c2.f ρ = [bx, cy])
+    (ho : ∀ q, o.f ([(v, q)] ++ ρ) = [ox, oy]) (h1 : ∀ q, c1.f ([(v, q)] ++ ρ) = [ax, ay])
+    (h2 : ∀ q, c2.f ([(v, q)] ++ ρ) = [bx, cy]) :
+    volume (.tri v o c1 c2) ρ = .ok (triVol ox oy ax ay bx cy, false) ∧
+    μL {p : Fin 2 → ℝ | mem (.tri v o c1 c2) [(v, [p 0, p 1])] ρ} = ENNReal.ofReal (triVol ox oy ax ay bx cy) := by
+  refine ⟨?_, ?_⟩
+  · simp [volume, volAux, e0, e1, e2]
+  · rw [tri_denotation v o c1 c2 ρ ox oy ax ay bx cy ho h1 h2, tri_volume, triVol_eq]
+    simp
+
+/-- Disc: `volume()` = π r² = Lebesgue measure of the denoted closed disc -/
+theorem circle_volume_sound (c r : PFun ℝ) (cx cy rr : ℝ) (h0 : 0 ≤ rr) (e : r.f ρ = [rr])
+    (hc : ∀ q, c.f ([(v, q)] ++ ρ) = [cx, cy]) (hr : ∀ q, r.f ([(v, q)] ++ ρ) = [rr]) :
+    volume (.circle v c r) ρ = .ok (circleVol rr, false) ∧
+    μL {p : EuclideanSpace ℝ (Fin 2) | mem (.circle v c r) [(v, [p 0, p 1])] ρ} = ENNReal.ofReal (circleVol rr) := by
+  refine ⟨?_, ?_⟩
+  · simp [volume, volAux, e]
+  · rw [circle_denotation v c r ρ cx cy rr hc hr, disc_volume _ _ h0]
+
+/-- Ball: `volume()` = 4/3 π r³ = Lebesgue measure of the denoted closed ball -/
+theorem sphere_volume_sound (c r : PFun ℝ) (cx cy cz rr : ℝ) (h0 : 0 ≤ rr) (e : r.f ρ = [rr])
+    (hc : ∀ q, c.f ([(v, q)] ++ ρ) = [cx, cy, cz]) (hr : ∀ q, r.f ([(v, q)] ++ ρ) = [rr]) :
+    volume (.sphere v c r) ρ = .ok (sphereVol rr, false) ∧
+    μL {p : EuclideanSpace ℝ (Fin 3) | mem (.sphere v c r) [(v, [p 0, p 1, p 2])] ρ} = ENNReal.ofReal (sphereVol rr) := by
+  refine ⟨?_, ?_⟩
+  · simp [volume, volAux, e]
+  · rw [sphere_denotation v c r ρ cx cy cz rr hc hr, ball_volume _ _ h0]
+
+end sound
+
+
+/-! ### orientation, positivity -/
+
+section field
+variable {K : Type} [Field K] [LinearOrder K] [IsStrictOrderedRing K]
+
+/-- positive for BOTH vertex orientations (only degenerate shapes have measure 0) -/
+theorem parVol_pos [Transc K] (ox oy ax ay bx cy : K) (hdet : (ax - ox) * (cy - oy) - (ay - oy) * (bx - ox) ≠ 0) :
+    0 < parVol ox oy ax ay bx cy := by
+  simp only [parVol, det2, absK_eq]; exact abs_pos.2 hdet
+
+/-- same for the triangle -/
+theorem triVol_pos [Transc K] (ox oy ax ay bx cy : K) (hdet : (ax - ox) * (cy - oy) - (ay - oy) * (bx - ox) ≠ 0) :
+    0 < triVol ox oy ax ay bx cy := by
+  simp only [triVol, det2, absK_eq]; exact div_pos (abs_pos.2 hdet) (by norm_num)
+
+/-- exchanging the two corners (the other orientation) does not change the volume -/
+theorem parVol_swap [Transc K] (ox oy ax ay bx cy : K) : parVol ox oy bx cy ax ay = parVol ox oy ax ay bx cy := by
+  simp only [parVol, det2, absK_eq]
+  rw [← abs_neg]; congr 1; ring
+
+/-- same for the triangle -/
+theorem triVol_swap [Transc K] (ox oy ax ay bx cy : K) : triVol ox oy bx cy ax ay = triVol ox oy ax ay bx cy := by
+  simp only [triVol, det2, absK_eq]
+  rw [← abs_neg]; congr 2; ring
+
+omit [LinearOrder K] [IsStrictOrderedRing K] in
+/-- the formula of the pinned snapshot is the SIGNED area: negative for clockwise corners -/
+theorem parVolOld_clockwise_negative [Transc K] : parVolOld (0:K) 0 0 1 1 0 = -1 ∧ triVolOld (0:K) 0 0 1 1 0 = -1/2 := by
+  constructor <;> simp [parVolOld, triVolOld, det2]
+
+/-- the repaired formulas are the absolute values of the old ones (so they agree on counter-clockwise shapes) -/
+theorem parVolOld_eq [Transc K] (ox oy ax ay bx cy : K) :
+    parVol ox oy ax ay bx cy = |parVolOld ox oy ax ay bx cy| ∧ triVol ox oy ax ay bx cy = |triVolOld ox oy ax ay bx cy| := by
+  constructor
+  · simp [parVol, parVolOld, absK_eq]
+  · simp only [triVol, triVolOld, det2, absK_eq, abs_div, abs_two]
+    congr 2; ring
+end field
+
+/-- surface measures over ℝ are positive -/
+theorem bdry_vols_pos (r : ℝ) (hr : 0 < r) : 0 < circleBdryVol r ∧ 0 < sphereBdryVol r ∧ 0 < circleVol r ∧ 0 < sphereVol r := by
+  simp only [circleBdryVol, sphereBdryVol, circleVol, sphereVol, Transc.pi]
+  have := Real.pi_pos
+  refine ⟨by positivity, by positivity, by positivity, by positivity⟩
+
+/-- perimeter of the parallelogram: twice the sum of the Euclidean side lengths -/
+theorem parBdryVol_eq (ox oy ax ay bx cy : ℝ) :
+    parBdryVol ox oy ax ay bx cy = 2 * (√((ax - ox) ^ 2 + (ay - oy) ^ 2) + √((bx - ox) ^ 2 + (cy - oy) ^ 2)) := by
+  simp [parBdryVol, norm2, Transc.sqrt, pow_two]
+
+/-- perimeter of the triangle: sum of the three Euclidean side lengths -/
+theorem triBdryVol_eq (ox oy ax ay bx cy : ℝ) :
+    triBdryVol ox oy ax ay bx cy = √((ax - ox) ^ 2 + (ay - oy) ^ 2) + √((bx - ax) ^ 2 + (cy - ay) ^ 2)
+      + √((ox - bx) ^ 2 + (oy - cy) ^ 2) := by
+  simp [triBdryVol, norm2, Transc.sqrt, pow_two]
+
+/-! ## 2. composition rules -/
+
+section model_rules
+variable {K : Type} [Add K] [Sub K] [Mul K] [Div K] [Neg K] [LE K] [DecidableLE K]
+  [OfNat K 0] [OfNat K 1] [OfNat K 2] [OfNat K 3] [OfNat K 4] [Transc K]
+
+/-- union (solid or boundary): `|a| + |b|`; a warning unless declared disjoint (children's warnings propagate) -/
+theorem vol_union (onB dj : Bool) (a b : VDom K) (ρ : Env K) (va vb : K) (ea eb : Bool)
+    (ha : volAux onB a ρ = .ok (va, ea)) (hb : volAux onB b ρ = .ok (vb, eb)) :
+    volAux onB (.union dj a b) ρ = .ok (va + vb, !dj || ea || eb) := by
+  cases onB <;> simp [volAux, ha, hb, bind, Except.bind, pure, Except.pure]
+
+/-- cut declared contained: `|a| − |b|`, no warning of its own -/
+theorem vol_cut_contained (a b : VDom K) (ρ : Env K) (va vb : K) (ea eb : Bool)
+    (ha : volAux false a ρ = .ok (va, ea)) (hb : volAux false b ρ = .ok (vb, eb)) :
+    volAux false (.cut true a b) ρ = .ok (va - vb, ea || eb) := by
+  simp [volAux, ha, hb, bind, Except.bind, pure, Except.pure]
+
+/-- cut not declared: the estimate `|a|` with a warning; `b` is not evaluated -/
+theorem vol_cut_estimate (a b : VDom K) (ρ : Env K) (va : K) (ea : Bool)
+    (ha : volAux false a ρ = .ok (va, ea)) :
+    volAux false (.cut false a b) ρ = .ok (va, true) := by
+  simp [volAux, ha, bind, Except.bind, pure, Except.pure]
+
+/-- intersection: always the estimate `|a|` with a warning -/
+theorem vol_inter_estimate (a b : VDom K) (ρ : Env K) (va : K) (ea : Bool)
+    (ha : volAux false a ρ = .ok (va, ea)) :
+    volAux false (.inter a b) ρ = .ok (va, true) := by
+  simp [volAux, ha, bind, Except.bind, pure, Except.pure]
+
+/-- product of independent factors: `|a| · |b|` -/
+theorem vol_prod (a b : VDom K) (ρ : Env K) (va vb : K) (ea eb : Bool) (hc : prodConstant a b = true)
+    (ha : volAux false a ρ = .ok (va, ea)) (hb : volAux false b ρ = .ok (vb, eb)) :
+    volAux false (.prod a b) ρ = .ok (va * vb, ea || eb) := by
+  simp [volAux, hc, ha, hb, bind, Except.bind, pure, Except.pure]
+
+/-- translation: the volume of the inner domain, unchanged -/
+theorem vol_translate (onB : Bool) (v : String) (d : VDom K) (t : PFun K) (ρ : Env K) :
+    volAux onB (.translate v d t) ρ = volAux onB d ρ := by
+  cases onB <;> simp [volAux]
+
+/-- rotation: the volume of the inner domain, unchanged -/
+theorem vol_rotate (onB : Bool) (v : String) (d : VDom K) (m c : PFun K) (ρ : Env K) :
+    volAux onB (.rotate v d m c) ρ = volAux onB d ρ := by
+  cases onB <;> simp [volAux]
+
+/-- which nodes make `volume()` an estimate -/
+def Declared : Bool → VDom K → Prop
+  | _, .interval .. | _, .par .. | _, .tri .. | _, .circle .. | _, .sphere .. | _, .point .. => True
+  | onB, .union dj a b => dj = true ∧ Declared onB a ∧ Declared onB b
+  | false, .cut ct a b => ct = true ∧ Declared false a ∧ Declared false b
+  | true, .cut ct a b => ct = true ∧ Declared true a ∧ Declared true b
+  | _, .inter _ _ => False
+  | false, .prod a b => Declared false a ∧ Declared false b
+  | true, .prod _ _ => False
+  | onB, .translate _ d _ | onB, .rotate _ d _ _ => Declared onB d
+  | false, .bdry d => Declared true d
+  | true, .bdry _ => True
+  | _, .bdryL _ | _, .bdryR _ => True
+  | false, .userVol _ _ => True
+  | true, .userVol d _ => Declared true d
+
+/-- no silent estimates: a value without warning comes from an expression in which every union is
+    declared disjoint, every cut contained, and there is no intersection (below the user overrides) -/
+theorem exact_only_if_declared (d : VDom K) : ∀ (onB : Bool) (ρ : Env K) (x : K),
+    volAux onB d ρ = .ok (x, false) → Declared onB d := by
+  induction d with
+  | interval | par | tri | circle | sphere | point => intros; trivial
+  | union dj a b iha ihb =>
+    intro onB ρ x h
+    cases ha : volAux onB a ρ with
+    | error e => cases onB <;> simp [volAux, ha, bind, Except.bind] at h
+    | ok va =>
+      cases hb : volAux onB b ρ with
+      | error e => cases onB <;> simp [volAux, ha, hb, bind, Except.bind] at h
+      | ok vb =>
+        obtain ⟨va, ea⟩ := va; obtain ⟨vb, eb⟩ := vb
+        rw [vol_union onB dj a b ρ va vb ea eb ha hb] at h
+        simp only [Except.ok.injEq, Prod.mk.injEq, Bool.or_eq_false_iff, Bool.not_eq_eq_eq_not, Bool.not_false] at h
+        obtain ⟨_, ⟨h1, h2⟩, h3⟩ := h
+        subst h2 h3
+        exact ⟨h1, iha onB ρ va ha, ihb onB ρ vb hb⟩
+  | cut ct a b iha ihb =>
+    intro onB ρ x h
+    cases onB with
+    | false =>
+      cases ha : volAux false a ρ with
+      | error e => simp [volAux, ha, bind, Except.bind] at h
+      | ok va =>
+        obtain ⟨va, ea⟩ := va
+        cases ct with
+        | false => simp [volAux, ha, bind, Except.bind, pure, Except.pure] at h
+        | true =>
+          cases hb : volAux false b ρ with
+          | error e => simp [volAux, ha, hb, bind, Except.bind] at h
+          | ok vb =>
+            obtain ⟨vb, eb⟩ := vb
+            rw [vol_cut_contained a b ρ va vb ea eb ha hb] at h
+            simp only [Except.ok.injEq, Prod.mk.injEq, Bool.or_eq_false_iff] at h
+            obtain ⟨_, h2, h3⟩ := h
+            subst h2 h3
+            exact ⟨rfl, iha false ρ va ha, ihb false ρ vb hb⟩
+    | true =>
+      cases ha : volAux true a ρ with
+      | error e => simp [volAux, ha, bind, Except.bind] at h
+      | ok va =>
+        cases hb : volAux true b ρ with
+        | error e => simp [volAux, ha, hb, bind, Except.bind] at h
+        | ok vb =>
+          obtain ⟨va, ea⟩ := va; obtain ⟨vb, eb⟩ := vb
+          simp only [volAux, ha, hb, bind, Except.bind, pure, Except.pure, Except.ok.injEq, Prod.mk.injEq,
+            Bool.or_eq_false_iff, Bool.not_eq_eq_eq_not, Bool.not_false] at h
+          obtain ⟨_, ⟨h1, h2⟩, h3⟩ := h
+          subst h2 h3
+          exact ⟨h1, iha true ρ va ha, ihb true ρ vb hb⟩
+  | inter a b iha ihb =>
+    intro onB ρ x h
+    cases onB with
+    | false =>
+      cases ha : volAux false a ρ with
+      | error e => simp [volAux, ha, bind, Except.bind] at h
+      | ok va => simp [volAux, ha, bind, Except.bind, pure, Except.pure] at h
+    | true =>
+      cases ha : volAux true a ρ with
+      | error e => simp [volAux, ha, bind, Except.bind] at h
+      | ok va =>
+        cases hb : volAux true b ρ with
+        | error e => simp [volAux, ha, hb, bind, Except.bind] at h
+        | ok vb => simp [volAux, ha, hb, bind, Except.bind, pure, Except.pure] at h
+  | prod a b iha ihb =>
+    intro onB ρ x h
+    cases onB with
+    | false =>
+      by_cases hc : prodConstant a b = true
+      · cases ha : volAux false a ρ with
+        | error e => simp [volAux, hc, ha, bind, Except.bind] at h
+        | ok va =>
+          cases hb : volAux false b ρ with
+          | error e => simp [volAux, hc, ha, hb, bind, Except.bind] at h
+          | ok vb =>
+            obtain ⟨va, ea⟩ := va; obtain ⟨vb, eb⟩ := vb
+            rw [vol_prod a b ρ va vb ea eb hc ha hb] at h
+            simp only [Except.ok.injEq, Prod.mk.injEq, Bool.or_eq_false_iff] at h
+            obtain ⟨_, h2, h3⟩ := h
+            subst h2 h3
+            exact ⟨iha false ρ va ha, ihb false ρ vb hb⟩
+      · simp [volAux, hc] at h
+    | true =>
+      by_cases hc : prodConstant a b = true
+      · simp only [volAux, hc, if_true] at h
+        cases h1 : volAux true a ρ with
+        | error e => simp [h1, bind, Except.bind] at h
+        | ok oa =>
+          cases h2 : volAux false b ρ with
+          | error e => simp [h1, h2, bind, Except.bind] at h
+          | ok vb =>
+            cases h3 : volAux false a ρ with
+            | error e => simp [h1, h2, h3, bind, Except.bind] at h
+            | ok va =>
+              cases h4 : volAux true b ρ with
+              | error e => simp [h1, h2, h3, h4, bind, Except.bind] at h
+              | ok ob => simp [h1, h2, h3, h4, bind, Except.bind, pure, Except.pure] at h
+      · simp [volAux, hc] at h
+  | translate v d t ih => intro onB ρ x h; rw [vol_translate] at h; exact ih onB ρ x h
+  | rotate v d m c ih => intro onB ρ x h; rw [vol_rotate] at h; exact ih onB ρ x h
+  | bdry d ih =>
+    intro onB ρ x h
+    cases onB with
+    | false => exact ih true ρ x (by simpa [volAux] using h)
+    | true => trivial
+  | bdryL d ih => intros; trivial
+  | bdryR d ih => intros; trivial
+  | userVol d f ih =>
+    intro onB ρ x h
+    cases onB with
+    | false => trivial
+    | true => exact ih true ρ x (by simpa [volAux] using h)
+
+end model_rules
+
+/-! ### … about arbitrary measurable sets -/
+
+theorem disjoint_union_add {α : Type} [MeasurableSpace α] (μ : Measure α) (A B : Set α)
+    (hB : MeasurableSet B) (hd : Disjoint A B) (va vb : ℝ) (h0a : 0 ≤ va) (h0b : 0 ≤ vb)
+    (hA : μ A = ENNReal.ofReal va) (hB' : μ B = ENNReal.ofReal vb) :
+    μ (A ∪ B) = ENNReal.ofReal (va + vb) := by
+  rw [measure_union hd hB, hA, hB', ENNReal.ofReal_add h0a h0b]
+
+/-- measure fact behind `vol_cut_contained`: subtractivity for a contained measurable set of finite measure -/
+theorem contained_cut_sub {α : Type} [MeasurableSpace α] (μ : Measure α) (A B : Set α)
+    (hB : MeasurableSet B) (hsub : B ⊆ A) (va vb : ℝ) (h0b : 0 ≤ vb)
+    (hA : μ A = ENNReal.ofReal va) (hB' : μ B = ENNReal.ofReal vb) :
+    μ (A \ B) = ENNReal.ofReal (va - vb) := by
+  rw [measure_sdiff hsub hB.nullMeasurableSet (by rw [hB']; exact ENNReal.ofReal_ne_top), hA, hB',
+    ENNReal.ofReal_sub _ h0b]
+
+/-- measure fact behind `vol_prod`: the product measure of a rectangle is the product of the measures -/
+theorem product_mul {α β : Type} [MeasurableSpace α] [MeasurableSpace β] (μ : Measure α) (ν : Measure β)
+    [SigmaFinite ν] (A : Set α) (B : Set β) (va vb : ℝ) (h0a : 0 ≤ va)
+    (hA : μ A = ENNReal.ofReal va) (hB : ν B = ENNReal.ofReal vb) :
+    (μ.prod ν) (A ×ˢ B) = ENNReal.ofReal (va * vb) := by
+  rw [Measure.prod_prod, hA, hB, ENNReal.ofReal_mul h0a]
+
+/-- measure fact behind `vol_translate`: Lebesgue measure of a translated set (any dimension) -/
+theorem translation_invariant {n : ℕ} (t : Fin n → ℝ) (A : Set (Fin n → ℝ)) :
+    μL ((fun q => q + t) '' A) = μL A := by
+  rw [image_add_right, measure_preimage_add_right]
+
+/-- the map `q ↦ M (q − c) + c` of `Rotate` -/
+noncomputable def rotMap (m00 m01 m10 m11 cx cy : ℝ) (q : Fin 2 → ℝ) : Fin 2 → ℝ :=
+  ![m00 * (q 0 - cx) + m01 * (q 1 - cy) + cx, m10 * (q 0 - cx) + m11 * (q 1 - cy) + cy]
+
+/-- aux: the 2×2 matrix applied to a vector -/
+theorem rotLin_apply (m00 m01 m10 m11 : ℝ) (q : Fin 2 → ℝ) :
+    Matrix.toLin' (Matrix.of ![![m00, m01], ![m10, m11]]) q = ![m00 * q 0 + m01 * q 1, m10 * q 0 + m11 * q 1] := by
+  ext i; fin_cases i <;> simp [Matrix.toLin'_apply, Matrix.mulVec, dotProduct, Fin.sum_univ_two]
+
+/-- measure fact behind `vol_rotate`: the image of ANY set under `q ↦ M(q − c) + c` has the same Lebesgue measure when `|det M| = 1` (rotations, reflections) -/
+theorem rotation_invariant (m00 m01 m10 m11 cx cy : ℝ) (hdet : |m00 * m11 - m01 * m10| = 1)
+    (A : Set (Fin 2 → ℝ)) :
+    μL (rotMap m00 m01 m10 m11 cx cy '' A) = μL A := by
+  have hfun : rotMap m00 m01 m10 m11 cx cy = (fun q => q + ![cx, cy]) ∘
+      (Matrix.toLin' (Matrix.of ![![m00, m01], ![m10, m11]])) ∘ (fun q => q + ![-cx, -cy]) := by
+    funext q; ext i
+    simp only [Function.comp_apply, rotLin_apply]
+    fin_cases i <;> simp [rotMap] <;> ring
+  have hdetL : LinearMap.det (Matrix.toLin' (Matrix.of ![![m00, m01], ![m10, m11]])) = m00 * m11 - m01 * m10 := by
+    simp [LinearMap.det_toLin', Matrix.det_fin_two]
+  rw [hfun, image_comp, image_comp, translation_invariant, Measure.addHaar_image_linearMap, hdetL, hdet,
+    translation_invariant]
+  simp
+
+
+/-! ## 3. user override, partial evaluation -/
+
+/-- **user override**: a volume set with `set_volume` replaces whatever is below it, without warning -/
 theorem user_override {K : Type} [Add K] [Sub K] [Mul K] [Div K] [Neg K] [LE K] [DecidableLE K]
     [OfNat K 0] [OfNat K 1] [OfNat K 2] [OfNat K 3] [OfNat K 4] [Transc K]
     (d : VDom K) (f : PFun K) (ρ : Env K) (x : K) (h : f.f ρ = [x]) :
     volume (.userVol d f) ρ = .ok (x, false) := by
   simp [volume, volAux, h]
+
+/-- … also through a translation / rotation (`Translate.set_volume` hands the value to the inner domain) -/
+theorem user_override_motion {K : Type} [Add K] [Sub K] [Mul K] [Div K] [Neg K] [LE K] [DecidableLE K]
+    [OfNat K 0] [OfNat K 1] [OfNat K 2] [OfNat K 3] [OfNat K 4] [Transc K]
+    (v : String) (d : VDom K) (f t m c : PFun K) (ρ : Env K) (x : K) (h : f.f ρ = [x]) :
+    volume (.translate v (.userVol d f) t) ρ = .ok (x, false) ∧ volume (.rotate v (.userVol d f) m c) ρ = .ok (x, false) := by
+  simp [volume, volAux, h]
+
+/-- non-vacuity: `Circle(r = 2).set_volume(5)` -/
+example : volume (VDom.userVol (.circle "x" (.const [0, 0]) (.const [2])) (.const [5])) ([] : Env ℝ) = .ok (5, false) :=
+  user_override _ _ _ 5 rfl
+
+
+section peval
+variable {K : Type} [Add K] [Sub K] [Mul K] [Div K] [Neg K] [LE K] [DecidableLE K]
+  [OfNat K 0] [OfNat K 1] [OfNat K 2] [OfNat K 3] [OfNat K 4] [Transc K]
+
+/-- no `set_volume` below (user volumes are not carried over by `__call__`) -/
+def NoUser : VDom K → Prop
+  | .interval .. | .par .. | .tri .. | .circle .. | .sphere .. | .point .. => True
+  | .union _ a b | .cut _ a b | .inter a b | .prod a b => NoUser a ∧ NoUser b
+  | .translate _ d _ | .rotate _ d _ _ | .bdry d | .bdryL d | .bdryR d => NoUser d
+  | .userVol _ _ => False
+
+/-- binding `σ` does not change which products are "constant" (true whenever `σ` binds no coordinate
+    variable of the expression: `prodConstant` only looks at coordinate variables of the second factor) -/
+def ProdStable (σ : Env K) : VDom K → Prop
+  | .interval .. | .par .. | .tri .. | .circle .. | .sphere .. | .point .. => True
+  | .prod a b => prodConstant (a.peval σ) (b.peval σ) = prodConstant a b ∧ ProdStable σ a ∧ ProdStable σ b
+  | .union _ a b | .cut _ a b | .inter a b => ProdStable σ a ∧ ProdStable σ b
+  | .translate _ d _ | .rotate _ d _ _ | .bdry d | .bdryL d | .bdryR d => ProdStable σ d
+  | .userVol d _ => ProdStable σ d
+
+omit [Add K] [Sub K] [Mul K] [Div K] [Neg K] [LE K] [DecidableLE K] [OfNat K 0] [OfNat K 1] [OfNat K 2] [OfNat K 3] [OfNat K 4] [Transc K] in
+/-- aux: a partially evaluated parameter sees the bound values -/
+theorem pfun_peval_f (p : PFun K) (σ e : Env K) : (p.peval σ).f e = p.f (e ++ σ) := rfl
+
+/-- **partial evaluation keeps the volume**: `D(**σ).volume(ρ) = D.volume(ρ ∪ σ)`, value and warning -/
+theorem peval_volAux (σ : Env K) (d : VDom K) : ∀ (onB : Bool) (ρ : Env K), NoUser d → ProdStable σ d →
+    volAux onB (d.peval σ) ρ = volAux onB d (ρ ++ σ) := by
+  induction d with
+  | interval v lb ub => intro onB ρ _ _; cases onB <;> simp [VDom.peval, volAux, pfun_peval_f]
+  | par v o c1 c2 => intro onB ρ _ _; simp [VDom.peval, volAux, pfun_peval_f]
+  | tri v o c1 c2 => intro onB ρ _ _; simp [VDom.peval, volAux, pfun_peval_f]
+  | circle v c r => intro onB ρ _ _; simp [VDom.peval, volAux, pfun_peval_f]
+  | sphere v c r => intro onB ρ _ _; simp [VDom.peval, volAux, pfun_peval_f]
+  | point v p => intro onB ρ _ _; cases onB <;> simp [VDom.peval, volAux]
+  | union dj a b iha ihb =>
+    intro onB ρ hn hp
+    cases onB <;> simp [VDom.peval, volAux, iha _ ρ hn.1 hp.1, ihb _ ρ hn.2 hp.2]
+  | cut ct a b iha ihb =>
+    intro onB ρ hn hp
+    cases onB <;> simp [VDom.peval, volAux, iha _ ρ hn.1 hp.1, ihb _ ρ hn.2 hp.2]
+  | inter a b iha ihb =>
+    intro onB ρ hn hp
+    cases onB <;> simp [VDom.peval, volAux, iha _ ρ hn.1 hp.1, ihb _ ρ hn.2 hp.2]
+  | prod a b iha ihb =>
+    intro onB ρ hn hp
+    cases onB <;> simp [VDom.peval, volAux, hp.1, iha _ ρ hn.1 hp.2.1, ihb _ ρ hn.2 hp.2.2]
+  | translate v d t ih => intro onB ρ hn hp; cases onB <;> simp [VDom.peval, volAux, ih _ ρ hn hp]
+  | rotate v d m c ih => intro onB ρ hn hp; cases onB <;> simp [VDom.peval, volAux, ih _ ρ hn hp]
+  | bdry d ih => intro onB ρ hn hp; cases onB <;> simp [VDom.peval, volAux, ih _ ρ hn hp]
+  | bdryL d ih =>
+    intro onB ρ hn hp
+    cases d <;> first | (cases onB <;> simp [VDom.peval, volAux]; done) | (exact absurd hn (by simp [NoUser]))
+  | bdryR d ih =>
+    intro onB ρ hn hp
+    cases d <;> first | (cases onB <;> simp [VDom.peval, volAux]; done) | (exact absurd hn (by simp [NoUser]))
+  | userVol d f ih => intro onB ρ hn; exact hn.elim
+
+/-- the same for `volume` -/
+theorem peval_volume (σ : Env K) (d : VDom K) (ρ : Env K) (hn : NoUser d) (hp : ProdStable σ d) :
+    volume (d.peval σ) ρ = volume d (ρ ++ σ) := peval_volAux σ d false ρ hn hp
+end peval
+
+/-- the pinned snapshot forgot the `contained` declaration in `__call__`: `[0, 2+t] \ [0,1]` evaluated at
+    `t = 1/2` had volume 5/2 instead of 3/2 -/
+theorem pevalOld_changes_volume :
+    let A : VDom ℝ := .interval "y" (.const [0]) ⟨["t"], fun e => match e.get "t" with | some [t] => [2 + t] | _ => []⟩
+    let B : VDom ℝ := .interval "y" (.const [0]) (.const [1])
+    let σ : Env ℝ := [("t", [1/2])]
+    volume (VDom.cut true A B) σ = .ok (3/2, false) ∧
+    volume ((VDom.cut true A B).peval σ) [] = .ok (3/2, false) ∧
+    volume ((VDom.cut true A B).pevalOld σ) [] = .ok (5/2, true) := by
+  refine ⟨?_, ?_, ?_⟩ <;>
+    simp [volume, volAux, VDom.peval, VDom.pevalOld, PFun.peval, PFun.const, Env.get, List.lookup, intervalVol, bind,
+      Except.bind, pure, Except.pure] <;> norm_num
+
+/-! ## the expression-level statement (not proved as one theorem, see `unproved_statements`) -/
+
+/-- the set a one-variable 2-D expression denotes -/
+def S2 (v : String) (e : Dom ℝ) (ρ : Env ℝ) : Set (Fin 2 → ℝ) := {p | mem e [(v, [p 0, p 1])] ρ}
+
+/-- induction step for unions, at the level of the denoted sets -/
+theorem union_step (v : String) (ea eb : Dom ℝ) (ρ : Env ℝ) (va vb : ℝ) (h0a : 0 ≤ va) (h0b : 0 ≤ vb)
+    (hm : MeasurableSet (S2 v eb ρ)) (hd : Disjoint (S2 v ea ρ) (S2 v eb ρ))
+    (ha : μL (S2 v ea ρ) = ENNReal.ofReal va) (hb : μL (S2 v eb ρ) = ENNReal.ofReal vb) :
+    μL (S2 v (.union ea eb) ρ) = ENNReal.ofReal (va + vb) := by
+  have : S2 v (.union ea eb) ρ = S2 v ea ρ ∪ S2 v eb ρ := by ext p; simp [S2, mem]
+  rw [this]; exact disjoint_union_add _ _ _ hm hd va vb h0a h0b ha hb
+
+/-- induction step for cuts -/
+theorem cut_step (v : String) (ea eb : Dom ℝ) (ρ : Env ℝ) (va vb : ℝ) (h0b : 0 ≤ vb)
+    (hm : MeasurableSet (S2 v eb ρ)) (hsub : S2 v eb ρ ⊆ S2 v ea ρ)
+    (ha : μL (S2 v ea ρ) = ENNReal.ofReal va) (hb : μL (S2 v eb ρ) = ENNReal.ofReal vb) :
+    μL (S2 v (.cut ea eb) ρ) = ENNReal.ofReal (va - vb) := by
+  have : S2 v (.cut ea eb) ρ = S2 v ea ρ \ S2 v eb ρ := by ext p; simp [S2, mem]
+  rw [this]; exact contained_cut_sub _ _ _ hm hsub va vb h0b ha hb
+
+/-- induction step for translations by a vector that does not depend on the point -/
+theorem translate_step (v : String) (e : Dom ℝ) (t : PFun ℝ) (ρ : Env ℝ) (tx ty : ℝ)
+    (ht : ∀ q, t.f ([(v, q)] ++ ρ) = [tx, ty]) :
+    μL (S2 v (.translate v e t) ρ) = μL (S2 v e ρ) := by
+  have : S2 v (.translate v e t) ρ = (fun q => q + ![tx, ty]) '' S2 v e ρ := by
+    ext p
+    simp only [S2, mem, get_single, ht, mem_ofPred_eq, mem_image]
+    constructor
+    · rintro (⟨q, x, tx', h1, h2, _⟩ | ⟨q1, q2, x, y, tx', ty', h1, h2, hx, hy, hm⟩ | ⟨q1, q2, q3, x, y, z, tx', ty', tz', h1, h2, _⟩)
+      · simp at h1
+      · simp only [Option.some.injEq, List.cons.injEq, and_true] at h1 h2
+        obtain ⟨rfl, rfl⟩ := h1; obtain ⟨rfl, rfl⟩ := h2
+        refine ⟨![q1, q2], by simpa using hm, ?_⟩
+        ext i; fin_cases i <;> simp [hx, hy]
+      · simp at h1
+    · rintro ⟨q, hq, rfl⟩
+      right; left
+      exact ⟨q 0, q 1, _, _, tx, ty, rfl, rfl, by simp, by simp, hq⟩
+  rw [this, translation_invariant]
+
+/-- the side conditions of the expression-level statement: parameters do not depend on the point, radii are
+    non-negative, declared unions ARE disjoint and declared cuts ARE contained (as denoted sets), translation
+    vectors / rotation matrices do not depend on the point and the matrices have determinant ±1 -/
+def Truthful (v : String) (ρ : Env ℝ) : VDom ℝ → Prop
+  | .interval .. | .sphere .. | .point .. | .bdry _ | .bdryL _ | .bdryR _ | .userVol .. | .prod .. => False
+  | .par _ o c1 c2 | .tri _ o c1 c2 =>
+    ∀ q, o.f ([(v, q)] ++ ρ) = o.f ρ ∧ c1.f ([(v, q)] ++ ρ) = c1.f ρ ∧ c2.f ([(v, q)] ++ ρ) = c2.f ρ
+  | .circle _ c r =>
+    (∀ q, c.f ([(v, q)] ++ ρ) = c.f ρ ∧ r.f ([(v, q)] ++ ρ) = r.f ρ) ∧ ∀ x, r.f ρ = [x] → 0 ≤ x
+  | .union dj a b =>
+    (dj = true → ∀ ea eb, a.erase = some ea → b.erase = some eb → Disjoint (S2 v ea ρ) (S2 v eb ρ)) ∧
+      Truthful v ρ a ∧ Truthful v ρ b
+  | .cut ct a b =>
+    (ct = true → ∀ ea eb, a.erase = some ea → b.erase = some eb → S2 v eb ρ ⊆ S2 v ea ρ) ∧
+      Truthful v ρ a ∧ Truthful v ρ b
+  | .inter a b => Truthful v ρ a ∧ Truthful v ρ b
+  | .translate _ d t => (∀ q, t.f ([(v, q)] ++ ρ) = t.f ρ) ∧ Truthful v ρ d
+  | .rotate _ d m c =>
+    (∀ q, m.f ([(v, q)] ++ ρ) = m.f ρ ∧ c.f ([(v, q)] ++ ρ) = c.f ρ) ∧
+      (∀ m00 m01 m10 m11, m.f ρ = [m00, m01, m10, m11] → |m00 * m11 - m01 * m10| = 1) ∧ Truthful v ρ d
+
+/-- **full statement** (kept visible; NOT proved as one theorem — proved step-wise: `par/tri/circle_volume_sound`
+    for the leaves, `union_step`, `cut_step`, `translate_step`, `rotation_invariant` for the nodes; the missing
+    part is the measurability book-keeping of the induction and the disc in `Fin 2 → ℝ` instead of
+    `EuclideanSpace ℝ (Fin 2)`).  For every 2-D one-variable solid expression that satisfies `Truthful`:
+    a value returned WITHOUT warning is the Lebesgue measure of the denoted set. -/
+def C10_full_volume_sound : Prop :=
+  ∀ (v : String) (D : VDom ℝ) (e : Dom ℝ) (ρ : Env ℝ) (x : ℝ),
+    D.erase = some e → D.vars = [v] → Truthful v ρ D →
+    volume D ρ = .ok (x, false) → μL (S2 v e ρ) = ENNReal.ofReal x
+
+/-! ## 4. counting -/
+
+
+theorem densityCount_eq_ceil (d v : ℚ) : densityCount d v = ⌈d * v⌉ := by
+  apply eq_of_forall_ge_iff
+  intro z
+  rw [densityCount, Rat.ceil_le_iff, Int.ceil_le]
+
+/-- … i.e. the unique integer with `n − 1 < d·v ≤ n` -/
+theorem densityCount_spec (d v : ℚ) :
+    d * v ≤ densityCount d v ∧ ((densityCount d v : ℤ) : ℚ) - 1 < d * v := by
+  rw [densityCount_eq_ceil]
+  refine ⟨Int.le_ceil _, ?_⟩
+  have := Int.ceil_lt_add_one (d * v)
+  linarith
+
+/-- a positive density on a domain of positive measure asks for at least one point -/
+theorem densityCount_pos (d v : ℚ) (h : 0 < d * v) : 1 ≤ densityCount d v := by
+  rw [densityCount_eq_ceil]; exact Int.one_le_ceil_iff.2 h
+
+/-- the product domain truncates instead: `⌊d·v⌋` -/
+theorem densityCountProd_eq_floor (d v : ℚ) : densityCountProd d v = ⌊d * v⌋ := by
+  apply eq_of_forall_le_iff
+  intro z
+  rw [densityCountProd, Rat.le_floor_iff, Int.le_floor]
+
+/-- parallelogram grid: `n₁·n₂ ≤ n` -/
+theorem gridDims_le (n s1 s2 : ℝ) (hn : 0 ≤ n) (h1 : 0 < s1) (h2 : 0 < s2) :
+    (((gridDims (fun x : ℝ => ⌊x⌋₊) n s1 s2).1 * (gridDims (fun x : ℝ => ⌊x⌋₊) n s1 s2).2 : ℕ) : ℝ) ≤ n := by
+  simp only [gridDims, Transc.sqrt, Nat.cast_mul]
+  have ha : 0 ≤ n * s1 / s2 := by positivity
+  have hb : 0 ≤ n * s2 / s1 := by positivity
+  calc ((⌊√(n * s1 / s2)⌋₊ : ℝ)) * (⌊√(n * s2 / s1)⌋₊ : ℝ)
+      ≤ √(n * s1 / s2) * √(n * s2 / s1) :=
+        mul_le_mul (Nat.floor_le (Real.sqrt_nonneg _)) (Nat.floor_le (Real.sqrt_nonneg _)) (Nat.cast_nonneg _) (Real.sqrt_nonneg _)
+    _ = √((n * s1 / s2) * (n * s2 / s1)) := (Real.sqrt_mul ha _).symm
+    _ = √(n ^ 2) := by congr 1; field_simp
+    _ = n := Real.sqrt_sq hn
+
+/-- the barycentric grid is the complete `n₁ × n₂` product lattice -/
+theorem baryGrid_length (n1 n2 : ℕ) : (baryGrid n1 n2).length = n1 * n2 := by
+  simp [baryGrid, List.length_flatMap, Nat.mul_comm]
+
+/-- the triangle grid is a sub-lattice of the parallelogram grid -/
+theorem triGrid_length_le (n1 n2 : ℕ) : (triGrid n1 n2).length ≤ n1 * n2 := by
+  rw [← baryGrid_length]; exact List.length_filter_le _ _
+
+/-- the interval grid has exactly `n` points -/
+theorem intervalGrid_length (l u : ℚ) (n : ℕ) : (intervalGrid l u n).length = n := by
+  simp [intervalGrid]
+
+/-- the lattice of the triangle for `n = 5` (`2n = 10` proposals, equal legs): `3 × 3`, of which 6 > 5 are kept -/
+theorem tri_density_grid_can_exceed :
+    gridDims (fun x : ℝ => ⌊x⌋₊) 10 1 1 = (3, 3) ∧ (triGrid 3 3).length = 6 ∧ 5 < (triGrid 3 3).length := by
+  have h3 : ⌊√(10:ℝ)⌋₊ = 3 := by
+    rw [Nat.floor_eq_iff (Real.sqrt_nonneg _)]
+    constructor
+    · rw [show ((3:ℕ):ℝ) = √(3^2) by rw [Real.sqrt_sq (by norm_num)]; norm_num]
+      exact Real.sqrt_le_sqrt (by norm_num)
+    · rw [show ((3:ℕ):ℝ) + 1 = √(4^2) by rw [Real.sqrt_sq (by norm_num)]; norm_num]
+      exact Real.sqrt_lt_sqrt (by norm_num) (by norm_num)
+  refine ⟨?_, by decide +kernel, by decide +kernel⟩
+  simp [gridDims, Transc.sqrt, h3]
+/-! ### examples (non-vacuity) -/
+
+/-- a parameter-dependent CLOCKWISE parallelogram (corners `[0,0]`, `[0,1+t]`, `[2,0]`) at `t = 1`:
+    all hypotheses of `par_volume_sound` hold and the volume is `+4` -/
+example : volume (K := ℝ) (VDom.par "x" (.const [0, 0]) ⟨["t"], fun e => match e.get "t" with | some [t] => [0, 1 + t] | _ => []⟩
+      (.const [2, 0])) [("t", [(1:ℝ)])] = .ok (parVol 0 0 0 2 2 0, false) ∧ parVol (0:ℝ) 0 0 2 2 0 = 4 := by
+  refine ⟨(par_volume_sound "x" [("t", [(1:ℝ)])] (.const [0, 0])
+    ⟨["t"], fun e => match e.get "t" with | some [t] => [0, 1 + t] | _ => []⟩ (.const [2, 0]) 0 0 0 2 2 0
+    rfl (by simp [Env.get, List.lookup]; norm_num) rfl (fun _ => rfl)
+    (fun q => by simp [Env.get, List.lookup]; norm_num) (fun _ => rfl)).1, ?_⟩
+  rw [parVol_eq]; norm_num
+
+example : volume (VDom.sphere "z" (.const [0, 0, 0]) (.const [2])) ([] : Env ℝ) = .ok (sphereVol 2, false) :=
+  (sphere_volume_sound "z" [] (.const [0, 0, 0]) (.const [2]) 0 0 0 2 (by norm_num) rfl (fun _ => rfl) (fun _ => rfl)).1
+
+example : volume (VDom.circle "x" (.const [0, 0]) (.const [2])) ([] : Env ℝ) = .ok (circleVol 2, false) :=
+  (circle_volume_sound "x" [] (.const [0, 0]) (.const [2]) 0 0 2 (by norm_num) rfl (fun _ => rfl) (fun _ => rfl)).1
+
+example : volume (VDom.tri "x" (.const [0, 0]) (.const [0, 1]) (.const [1, 0])) ([] : Env ℝ) = .ok (triVol 0 0 0 1 1 0, false)
+    ∧ triVol (0:ℝ) 0 0 1 1 0 = 1 / 2 := by
+  refine ⟨(tri_volume_sound "x" [] (.const [0, 0]) (.const [0, 1]) (.const [1, 0]) 0 0 0 1 1 0 rfl rfl rfl
+    (fun _ => rfl) (fun _ => rfl) (fun _ => rfl)).1, ?_⟩
+  rw [triVol_eq]; norm_num
+
+example : volume (VDom.interval "y" (.const [1]) (.const [3])) ([] : Env ℝ) = .ok (intervalVol 1 3, false) :=
+  (interval_volume_sound "y" [] (.const [1]) (.const [3]) 1 3 rfl rfl (fun _ => rfl) (fun _ => rfl)).1
+
+/-- a declared union of a declared cut and a translated disc: exact (no warning) and `Declared` -/
+example : Declared (K := ℝ) false (.union true (.cut true (.circle "x" (.const [0,0]) (.const [2])) (.circle "x" (.const [0,0]) (.const [1])))
+    (.translate "x" (.circle "x" (.const [0,0]) (.const [1])) (.const [8, 0]))) := by
+  simp [Declared]
+
+example : densityCount 10 (1/3) = 4 ∧ densityCountProd 10 (1/3) = 3 := by decide +kernel
+example : (baryGrid 2 3).length = 6 ∧ (triGrid 2 2).length = 3 ∧ (triGridStrict 2 2).length = 1 := by decide +kernel
+/-- the unit square turned by the rational rotation (3/5, 4/5) about (1,2) still has area 1 -/
+example : μL (rotMap (3/5) (-4/5) (4/5) (3/5) 1 2 '' parSet ![0,0] ![1,0] ![0,1]) = ENNReal.ofReal 1 := by
+  rw [rotation_invariant _ _ _ _ _ _ (by norm_num), par_volume]; norm_num
+example : ProdStable (K := ℝ) [("t", [1])] (.prod (.circle "x" (.const [0,0]) (⟨["t"], fun _ => [1]⟩ : PFun ℝ)) (.interval "s" (.const [0]) (.const [1]))) := by
+  simp [ProdStable, prodConstant, VDom.peval, VDom.vars, VDom.freeVars, PFun.peval, PFun.const, dedup, Env.get, List.lookup]
 
 end TPV.Geom
